@@ -1303,6 +1303,10 @@ class _Norm:
                 return True
         return False
 
+    def _has_starred_generator(self, e: ast.AST) -> bool:
+        """[a, *self._gen(x)]: a display that spreads the stream of a private generator helper (written as X.extend(..), then opened)"""
+        return any(isinstance(x, ast.Starred) and self._is_generator_call(x.value) for x in ast.walk(e))
+
     def _is_list_expr(self, v: ast.AST) -> bool:
         if isinstance(v, (ast.List, ast.ListComp)):
             return True
@@ -1484,7 +1488,7 @@ class _Norm:
     def _list_stmt(self, s: ast.stmt, before: Optional[List[ast.stmt]] = None) -> Optional[List[ast.stmt]]:
         # X = <list expression>   /   return <list expression>
         if isinstance(s, (ast.Assign, ast.AnnAssign, ast.Return)) and getattr(s, "value", None) is not None and self._is_list_expr(s.value) \
-                and self._needs_loops(s.value):
+                and (self._needs_loops(s.value) or self._has_starred_generator(s.value)):
             if isinstance(s, ast.Assign):
                 if not (len(s.targets) == 1 and isinstance(s.targets[0], ast.Name)) or _uses(s.value, s.targets[0].id):
                     return None
